@@ -7,6 +7,8 @@ TEXT = {
  "C01": "Bounded symbolic model checking of the implementation: every history within the bound (operation choice forked, key/value contents and all 32-bit hashes symbolic) is executed on the go/ssa of the current tree; each Get/GetAppend/Has/Count/Items result is an SMT obligation against a reference map. Holds for all key contents and all hash layouts within the stated history/shape bounds; nothing outside them.",
  "C02": "Bounded symbolic model checking: histories with clean Close+Open inserted at symbolic positions, executed on the SSA of the current tree with symbolic contents and hashes; after every reopen contents/Count equal the reference map, Close released the lock, the reopen ran no recovery; plus metadata write/read round trips with fully symbolic field values.",
  "C15": "Bounded symbolic model checking: histories of put/delete/compact/restart; after every Compact the directory listing, live-segment set and side files are checked and the database must stay usable (Sync, Put, Delete, Close, Open).",
+ "C03": "Bounded symbolic model checking with fault injection as path forks: every mutating file-system call of the armed history suffix is a crash point (and every 512-aligned tear of a data write), then the real recovery runs symbolically and the recovered observable state must equal the reference before or after the operation in flight (one disjunctive SMT obligation per path); contents and hash layout symbolic.",
+ "C04": "As C03 over three epochs: crash in epoch 1 (torn writes included), second crash at any file-system call of the recovering Open, acknowledged operations in the recovered session, process death, final recovery and a repeated recovery; every acknowledged write must be present, recovery idempotent, segment append offsets equal file lengths.",
  "C08": "Differential symbolic execution of recoveryIterator/segmentIterator (with bufio and io.ReadFull from stdlib SSA) against a reference decoder on segments whose tail bytes are fully symbolic: same accepted records, truncation to the accepted prefix, no error/panic, for all tail contents up to the stated length.",
  "C18": "Differential symbolic execution of the encoders/decoders against a reference written from docs/design.md; all contents symbolic, sizes case-split; MurmurHash3 compared as bit-vector terms for all inputs of each length.",
  "C19": "Every allocation executed during recovery of a segment with a fully symbolic damaged header is an SMT obligation size <= budget, the size being a symbolic expression of the header; unsat covers all 2^48 headers within the tail-length bound.",
